@@ -214,6 +214,119 @@ theorem fetch_scalar_raises_pre_fix :
       = .ok (Ctx.set fctxEx "out" (.int 42)) := by
   decide +kernel
 
+/-! ### Encodings: the output is in the OUT encoding on every route -/
+
+/-- **fileformat_file_spec.** `ObjectRewriter.in_to_out` at file level, for every combination of
+    `encoding` / `encodingIn` / `encodingOut` and for BOTH routes (`out` another path: written straight
+    to it; no `out`, an empty `out` or `out` equal to `in`: the temp file that replaces `in`): if the
+    source is stored in the IN encoding and parses to `d`, the step succeeds, and the file at the
+    target path is stored in the OUT encoding, reads back with the OUT encoding, and parses to `d` with
+    every string node formatted. -/
+theorem fileformat_file_spec {τ} (c : Codec τ) (fuel : Nat) (ctx : Ctx) (files : Files (Stored τ))
+    (inp : String) (out : Option String) (o : EncOpts) (dflt : String) (src : τ) (d d' : Val)
+    (hfile : files.get? inp = some ⟨o.inEnc dflt, src⟩)
+    (hsrc : c.dec src = some d) (hd : isDoc d = true) (hfmt : fmtDoc fuel ctx d = .ok d')
+    (hc : c.RoundTrips d') :
+    ∃ files' t, fileFormatFile c fuel ctx files inp out o dflt = .ok files' ∧
+      files'.get? (targetOf inp out) = some ⟨o.outEnc dflt, t⟩ ∧
+      (Stored.mk (o.outEnc dflt) t).readAs (o.outEnc dflt) = some t ∧
+      c.dec t = some d' ∧ DocMap ctx d d' := by
+  obtain ⟨t, hok, hdec, hmap⟩ := fileformat_doc_spec c fuel ctx src d d' hsrc hd hfmt hc
+  refine ⟨files.set (targetOf inp out) ⟨o.outEnc dflt, t⟩, t, ?_, Files.get?_set_self _ _ _, ?_, hdec, hmap⟩
+  · simp [fileFormatFile, hfile, Stored.readAs, hok]
+  · simp [Stored.readAs]
+
+/-- The options: `encodingIn` / `encodingOut` win over `encoding`, which wins over the default; the
+    two derived encodings are independent of each other. -/
+theorem encopts_spec (o : EncOpts) (dflt : String) :
+    (∀ e, o.encodingOut = some e → o.outEnc dflt = e) ∧
+    (∀ e, o.encodingIn = some e → o.inEnc dflt = e) ∧
+    (o.encodingOut = none → ∀ e, o.encoding = some e → o.outEnc dflt = e) ∧
+    (o.encodingIn = none → ∀ e, o.encoding = some e → o.inEnc dflt = e) ∧
+    (o.encodingOut = none → o.encoding = none → o.outEnc dflt = dflt) ∧
+    (o.encodingIn = none → o.encoding = none → o.inEnc dflt = dflt) := by
+  refine ⟨?_, ?_, ?_, ?_, ?_, ?_⟩ <;> intros <;> simp_all [EncOpts.outEnc, EncOpts.inEnc]
+
+/-- **inplace_route_same_as_out_equal_in.** No `out`, an empty `out` and `out` equal to `in` are one
+    and the same rewrite: same target, same text, same encoding. -/
+theorem inplace_route_same_as_out_equal_in {τ} (c : Codec τ) (fuel : Nat) (ctx : Ctx)
+    (files : Files (Stored τ)) (inp : String) (o : EncOpts) (dflt : String) :
+    fileFormatFile c fuel ctx files inp none o dflt = fileFormatFile c fuel ctx files inp (some inp) o dflt ∧
+    fileFormatFile c fuel ctx files inp none o dflt = fileFormatFile c fuel ctx files inp (some "") o dflt := by
+  constructor
+  · by_cases h : inp = "" <;> simp [fileFormatFile, targetOf, h]
+  · simp [fileFormatFile, targetOf]
+
+private def utf16to8 : EncOpts := { encodingIn := some "utf-16", encodingOut := some "utf-8" }
+
+/-- A UTF-16 document converted to UTF-8 while formatting, in place: the file that replaces the
+    source is stored in UTF-8 (not in the encoding it was read with). -/
+example : fileFormatFile Codec.ideal 8 ctxEx [("legacy.json", ⟨"utf-16", docEx⟩)] "legacy.json" none utf16to8 "utf-8"
+      = .ok [("legacy.json", ⟨"utf-8",
+          .dict [(.str "av1", .list [.str "xv1", .int 42, .int 1, .none]), (.str "true", .str "true")]⟩)] ∧
+    utf16to8.inEnc "utf-8" = "utf-16" ∧ utf16to8.outEnc "utf-8" = "utf-8" := by
+  decide +kernel
+
+/-! ### Sessions: a round trip does not depend on what the process did before
+
+  In the model a codec is a pair of functions (`Codec.enc`, `Codec.dec`): the result of a read is a
+  function of the text. `runSession` threads nothing but the files from one operation to the next.
+  That the REAL loaders are used statelessly is an assumption about the implementation; the
+  correspondence checks it (sessions of several operations in one process, each compared with the
+  same operation in a fresh process). -/
+
+theorem runSession_append {τ} (c : Format → Codec τ) (fuel : Nat) (pre post : List SOp) :
+    ∀ files : Files τ, runSession c fuel files (pre ++ post) =
+      ((runSession c fuel (runSession c fuel files pre).1 post).1,
+       (runSession c fuel files pre).2 ++ (runSession c fuel (runSession c fuel files pre).1 post).2) := by
+  induction pre with
+  | nil => intro files; simp [runSession]
+  | cons op ops ih => intro files; simp [runSession, ih]
+
+/-- **roundtrip_after_any_history.** Whatever operations `pre` ran before in the same session — reads
+    of files with whatever content, writes, rewrites, in any number — and whatever files existed, a
+    write step followed by a fetch step pointed at the same path observes exactly what the pair
+    observes on its own: the write succeeds and the fetch stores the payload that was written. -/
+theorem roundtrip_after_any_history {τ} (c : Format → Codec τ) (f : Format) (fuel : Nat) (ctx ctx2 : Ctx)
+    (files0 : Files τ) (pre : List SOp) (path : String) (p' : Val) (key : Option Val)
+    (hw : writePayload f fuel ctx = .ok (path, p')) (hc : (c f).RoundTrips p')
+    (hf : fetchArgs f fuel ctx2 = .ok (path, key)) :
+    (runSession c fuel files0 (pre ++ [.write f ctx, .fetch f ctx2])).2 =
+      (runSession c fuel files0 pre).2 ++
+        [.wrote, match store ctx2 key p' with
+                 | .ok cx => .fetched cx
+                 | .error e => .failed e] := by
+  rw [runSession_append]
+  obtain ⟨files', h1, h2⟩ := write_fetch_roundtrip f (c f) fuel fuel ctx ctx2
+    (runSession c fuel files0 pre).1 path p' key hw hc hf
+  simp only [runSession, stepS, h1, h2]
+  cases store ctx2 key p' <;> rfl
+
+/-- The same for a rewrite: after any history, formatting a file whose text parses to `d` leaves at
+    the target a text that parses to `d` with every string node formatted. -/
+theorem fileformat_after_any_history {τ} (c : Format → Codec τ) (f : Format) (fuel : Nat) (ctx : Ctx)
+    (files0 : Files τ) (pre : List SOp) (inp : String) (out : Option String) (src : τ) (d d' : Val)
+    (hfile : (runSession c fuel files0 pre).1.get? inp = some src)
+    (hsrc : (c f).dec src = some d) (hd : isDoc d = true) (hfmt : fmtDoc fuel ctx d = .ok d')
+    (hc : (c f).RoundTrips d') :
+    ∃ t, (runSession c fuel files0 (pre ++ [.format f ctx inp out])).1.get? (targetOf inp out) = some t ∧
+      (c f).dec t = some d' ∧ DocMap ctx d d' := by
+  rw [runSession_append]
+  obtain ⟨t, hok, hdec, hmap⟩ := fileformat_doc_spec (c f) fuel ctx src d d' hsrc hd hfmt hc
+  refine ⟨t, ?_, hdec, hmap⟩
+  simp only [runSession, stepS, hfile, hok]
+  exact Files.get?_set_self _ _ _
+
+/-- A session: fetch a legacy file, then round-trip a payload of type look-alikes. -/
+example : (runSession (fun _ => Codec.ideal) 8 [("legacy.yaml", Val.dict [(.str "name", .str "legacy")])]
+      [.fetch .yaml [("fetchYaml", .dict [(.str "path", .str "legacy.yaml"), (.str "key", .str "old")])],
+       .write .yaml [("fileWriteYaml", .dict [(.str "path", .str "o.yaml"),
+          (.str "payload", .dict [(.str "answer", .str "yes"), (.str "no", .str "12:30:00")])])],
+       .fetch .yaml [("fetchYaml", .dict [(.str "path", .str "o.yaml"), (.str "key", .str "back")])]]).1
+    = [("legacy.yaml", Val.dict [(.str "name", .str "legacy")]),
+       ("o.yaml", Val.dict [(.str "answer", .str "yes"), (.str "no", .str "12:30:00")])] := by
+  decide +kernel
+
 /-! ### JSON: the codec hypothesis discharged -/
 
 /-- **json_roundtrip.** For every document of objects with pairwise distinct string keys, arrays,
